@@ -87,8 +87,9 @@ def run(chk):
     # ------------------------------------------------------------------ translator + Lean
     from .. import translate_effects as T
     info = T.write_generated()
-    if info['changed']:
-        chk.generated_changed.append('PeptVerif/Generated/Effects.lean')
+    for rel in info.get('changed_files', []):
+        chk.generated_changed.append('PeptVerif/Generated/' + rel)
+    chk.count('generated_module_files', len([r for r in info['files'] if r.startswith('Effects/M_')]))
     phase('translate')
     chk.lean_build(['PeptVerif.Props.C08'], DRV)
     phase('lean_build_audit')
@@ -189,7 +190,9 @@ def run(chk):
                 '(shape, spec); ordered pairs (query A, any B) exhaustive on every shape; triples random; non-trivial = the last call '
                 'returned a value (did not raise); distinct = distinct (shape, call sequence)')
     if tier == 'thorough':
-        chk.leanchecker(['PeptVerif.Model.Effects', 'PeptVerif.Generated.Effects', 'PeptVerif.Props.C08'])
+        gen_mods = ['PeptVerif.Generated.' + r[:-5].replace('/', '.') for r in sorted(info['files'])]
+        chk.leanchecker(['PeptVerif.Model.Effects', 'PeptVerif.Model.EffectsNested', 'PeptVerif.Lemmas.Effects',
+                         'PeptVerif.Lemmas.EffectsNested'] + gen_mods + ['PeptVerif.Props.C08'])
     return chk.finish(classify)
 
 
